@@ -63,6 +63,20 @@ fn main() {
             }
             eprintln!("lines={}", sink.n);
         }
+        Some("wide") => {
+            // wide <out> <seed> <runs> <steps> <extreme-config: 0|1>
+            let f = std::fs::File::create(&args[2]).unwrap();
+            let mut sink = Sink::new(Box::new(std::io::BufWriter::new(f)));
+            sink.reduced = true;
+            let seed: u64 = args[3].parse().unwrap();
+            let runs: u64 = args[4].parse().unwrap();
+            let steps: usize = args[5].parse().unwrap();
+            let ext = args.get(6).map(|s| s == "1").unwrap_or(false);
+            for k in 0..runs {
+                drive::walk_wide(&mut sink, seed, k + 1, steps, ext);
+            }
+            eprintln!("lines={}", sink.n);
+        }
         Some("exec") => {
             // exec <in.ndjson> <out.ndjson>: re-executes the calls of a recorded trace (linear, with
             // instantiate lines starting new runs) against the current tree
@@ -75,7 +89,13 @@ fn main() {
                     continue;
                 }
                 let v: serde_json::Value = serde_json::from_str(line).unwrap();
-                let call = v.get("call").cloned().unwrap_or(v.clone());
+                let call = match v.get("callj").and_then(|x| x.as_str()) {
+                    Some(cj) => {
+                        sink.reduced = true;
+                        serde_json::from_str(cj).unwrap()
+                    }
+                    None => v.get("call").cloned().unwrap_or(v.clone()),
+                };
                 if call["m"] == "instantiate" {
                     let setup = run::setup_from_call(&call);
                     let mut r = Run::new(setup, call["run"].as_u64().unwrap_or(0));
@@ -109,7 +129,8 @@ fn main() {
             let sample_mod: u64 = args[4].parse().unwrap();
             let seed: u64 = args[5].parse().unwrap();
             let target = args.get(6).map(|s| s.as_str()).unwrap_or("staking");
-            match tree::run_tree(&text, &mut sink, sample_mod, seed, target) {
+            let part: (u64, u64) = (args.get(7).and_then(|s| s.parse().ok()).unwrap_or(0), args.get(8).and_then(|s| s.parse().ok()).unwrap_or(1));
+            match tree::run_tree(&text, &mut sink, sample_mod, seed, target, part) {
                 Ok(st) => {
                     let by: serde_json::Map<String, serde_json::Value> = st.by_kind.iter().map(|(k, v)| (k.clone(), json!({"ok": v.0, "refused": v.1}))).collect();
                     println!("{}", json!({"edges": st.edges, "executed": st.executed, "ok": st.ok_edges, "refused": st.refused_edges,
